@@ -3,8 +3,10 @@
 // Grid::coordinateToIndicesInPlace (default eps = EPSILON6), the "shift an upper-border point down by one node"
 // correction, _addElementToTriplet, _addWeights (MSS table, Grid::indiceToRank / indiceToCoordinate, Indirection
 // identity, MatrixSquareGeneral storage, AMatrix::invert / prodMatVecInPlace), NF_Triplet::force.  The 3x3 inverse
-// (Eigen PartialPivLU behind AMatrixDense::_invert) is replaced by the exact adjugate / determinant inverse computed
-// on the same Eigen storage.
+// (Eigen PartialPivLU behind AMatrixDense::_invert) is replaced by an exact inverse computed on the same Eigen storage.
+// Defines: VF_POLAR 0/1 polarisation (concrete: the MSS table entries are then constants), VF_DX0 / VF_DX1 concrete meshes
+// (default: arbitrary reals), VF_X0 origin expression, VF_LATTICE point on the dyadic lattice 2^-22 dx (bit-exact replay),
+// VF_SPLIT_PARITY solver hint.
 // Asserted (the projection clause of C15 for a point INSIDE the mesh):
 //   the row of the sample is non-empty: exactly ncorner = 3 entries in row 0, columns = three distinct grid nodes;
 //   every weight is in [0,1]; the weights sum to one and reproduce the coordinates of the point (affine exactness):
@@ -124,11 +126,12 @@ int AMatrixDense::_invert()
   c[2][2] = b[0][0] * b[1][1] - b[0][1] * b[1][0];
   double det = b[0][0] * c[0][0] + b[0][1] * c[0][1] + b[0][2] * c[0][2];
   if (det == 0.) return 1;
+  double rdet = 1. / det;
   for (int j = 0; j < NC; j++) // B^-1(i,j) = c[j][i] / det ; A^-1 = E B^-1 : row 0 minus rows 1 and 2
   {
-    _eigenMatrix(0, j) = (c[j][0] - c[j][1] - c[j][2]) / det;
-    _eigenMatrix(1, j) = c[j][1] / det;
-    _eigenMatrix(2, j) = c[j][2] / det;
+    _eigenMatrix(0, j) = (c[j][0] - c[j][1] - c[j][2]) * rdet;
+    _eigenMatrix(1, j) = c[j][1] * rdet;
+    _eigenMatrix(2, j) = c[j][2] * rdet;
   }
   return 0;
 }
@@ -144,12 +147,23 @@ static void run(bool exact)
   DX[0] = VF_DX0;
   DX[1] = VF_DX1;
   double Q[ND];
+#ifdef VF_LATTICE // offsets on the dyadic lattice 2^-22 dx (exact in IEEE double: a counterexample replays bit for bit)
+  for (int d = 0; d < ND; d++) Q[d] = vf_grid_double(8388608) * (1. / 4194304.);
+#else
   for (int d = 0; d < ND; d++) Q[d] = vf_nondet_double(); // offset of the point from the origin
+#endif
+#ifdef VF_POLAR
+  bool polar = (VF_POLAR != 0); // concrete: the MSS table entries are then constants of the linear system
+#else
   bool polar = vf_nondet_bool();
+#endif
   for (int d = 0; d < ND; d++)
   {
     vf_assume(DX[d] > 0.);
     vf_assume(X0[d] > -1.e6 && X0[d] < 1.e6 && DX[d] < 1.e6); // far below TEST = 1.234e30 (undefined value)
+#ifdef VF_LATTICE
+    Q[d] *= DX[d];
+#endif
     vf_assume(Q[d] >= 0. && Q[d] <= (NX - 1) * DX[d]); // CLOSED grid domain
     P[d] = X0[d] + Q[d];
   }
@@ -183,13 +197,18 @@ static void run(bool exact)
 
   // the round-off guard of coordinateToIndicesInPlace: a point within eps*dx below a grid line is given to the next cell
   const double eps = 1.e-6; // EPSILON6, the default of the argument
-  bool inband = false;
+  bool   inband = false;
+  double csum   = 0.;
   for (int d = 0; d < ND; d++)
   {
     double t  = (P[d] - X0[d]) / DX[d];
     double c  = floor(t + eps); // the start node coordinateToIndicesInPlace computes: 0, 1 or 2 (upper border)
     if (c != floor(t)) inband = true;
+    csum += c;
   }
+#ifdef VF_SPLIT_PARITY // solver hint only: case analysis over the parity of the start cell (which decides the polarisation)
+  vf_split(csum == 0. || csum == 2. || csum == 4.);
+#endif
   if (exact) vf_assume(!inband);
 
   m->MeshETurbo::resetProjMatrix((ProjMatrix*)pmbuf, DB, -1, false); // REAL code
